@@ -3,9 +3,11 @@ EXTENDS FramingEnc
 M(n) == [k |-> "msg", ser |-> [j \in 1..n |-> 7]]
 P == [k |-> "pend"]
 Er == [k |-> "err", code |-> 10]
+Refuse == [k |-> "encfail", ser |-> <<7>>]
 \* message lengths 0,1,2 fit, 9 is over the limit (Limit = 5); Yield = 12 bytes = two 1-byte frames
 Base == {<<>>, <<M(1)>>, <<M(9)>>, <<M(1), M(1), M(9)>>, <<M(1), M(9), M(1)>>, <<M(9), M(9)>>, <<M(1), M(9), M(9)>>,
-         <<M(0), M(2), M(1), M(1)>>, <<M(1), Er>>, <<Er>>, <<M(1), M(1), M(1), Er>>, <<M(2), M(9), Er>>}
+         <<M(0), M(2), M(1), M(1)>>, <<M(1), Er>>, <<Er>>, <<M(1), M(1), M(1), Er>>, <<M(2), M(9), Er>>,
+         <<Refuse>>, <<M(1), Refuse, M(1)>>, <<M(1), M(1), Refuse>>, <<Refuse, M(9)>>}
 \* every placement of 0..2 Pending markers
 Ins(s, p) == SubSeq(s, 1, p) \o <<P>> \o SubSeq(s, p + 1, Len(s))
 WithPend == LET a == Base \cup UNION { { Ins(s, p) : p \in 0..Len(s) } : s \in Base }
